@@ -304,7 +304,7 @@ func setStore(kv ethdb.KeyValueStore, want []kvpair) error {
 	return nil
 }
 
-// TODO-KNOWN-FINDING (C23-F4, spec/store/NOTES.md): on the leveldb backend batch.DeleteRange(start, end) with
+// KNOWN-FINDING (tolerated only through ctx.known_finding in the check) (C23-F4, spec/store/NOTES.md): on the leveldb backend batch.DeleteRange(start, end) with
 // start > end panics inside goleveldb ("slice bounds out of range" in tFiles.newIndexIterator) as soon as the
 // database has tables below level 0; every other backend treats the inverted range as empty, which is also what
 // KV.tla says (and what the QEager expansion of an empty range is: nothing).  The driver therefore does not issue
@@ -312,8 +312,10 @@ func setStore(kv ethdb.KeyValueStore, want []kvpair) error {
 // it; `-mode f4` reproduces the panic in a child process.
 var skippedF4 int
 
+var skipF4 bool
+
 func invertedOnLeveldb(t *target, a, e []byte) bool {
-	if !strings.HasSuffix(t.name, "leveldb") || a == nil || e == nil || bytes.Compare(a, e) <= 0 {
+	if !skipF4 || !strings.HasSuffix(t.name, "leveldb") || a == nil || e == nil || bytes.Compare(a, e) <= 0 {
 		return false
 	}
 	skippedF4++
@@ -547,7 +549,7 @@ func compare(t *target, got pstate, gotErr bool, want pstate) string {
 
 // pendingFinding classifies a mismatch of a target against the CONTRACT (all Q* constants FALSE).
 //
-// TODO-KNOWN-FINDING (C23-F1, C23-F2, C23-F3; spec/store/NOTES.md): three backends deviate from the
+// KNOWN-FINDING (tolerated only through ctx.known_finding in the check) (C23-F1, C23-F2, C23-F3; spec/store/NOTES.md): three backends deviate from the
 // ethdb contract exactly as the QEmptyDel / QEager / QReplayRange constants of KV.tla describe.  Those
 // backends are bound to the module *with* their constant set (any other deviation is a VIOLATION);
 // when the contract edges are replayed on them (-pending) a mismatch is reported as pending only if
@@ -866,6 +868,40 @@ func runF4(dir string, sum *tl.Summary) {
 	sum.Sample(tl.M{"f4": sum.Extra["f4"]})
 }
 
+// runProbe finds out which of the known deviations the code under test has (a fixed tree has none), so that the
+// check binds every target to the matching constants of KV.tla.
+func runProbe(dir string, sum *tl.Summary) {
+	// F1: memorydb batch.Delete(empty key) wipes everything
+	m := memorydb.New()
+	must(m.Put([]byte("a"), []byte("1")))
+	b := m.NewBatch()
+	must(b.Delete([]byte{}))
+	must(b.Write())
+	has, _ := m.Has([]byte("a"))
+	sum.Extra["f1"] = !has
+	// F3: a table batch cannot replay a range deletion
+	t := rawdb.NewTable(rawdb.NewDatabase(memorydb.New()), "t")
+	tb := t.NewBatch()
+	must(tb.DeleteRange([]byte("a"), []byte("b")))
+	sum.Extra["f3"] = tb.Replay(t) != nil
+	// F2: leveldb expands a buffered range deletion when it is issued
+	ldb, err := leveldb.New(filepath.Join(dir, "probe-f2"), 16, 16, "", false)
+	if err != nil {
+		tl.Fatal("open leveldb: %v", err)
+	}
+	lb := ldb.NewBatch()
+	must(lb.Put([]byte("k"), []byte("v")))
+	must(lb.DeleteRange([]byte("k"), nil))
+	must(lb.Write())
+	has, _ = ldb.Has([]byte("k"))
+	sum.Extra["f2"] = has
+	ldb.Close()
+	sum.Evaluations = 3
+	sum.Distinct = 3
+	sum.Rule = "directed probes of the known deviations C23-F1..F3"
+	sum.Sample(tl.M{"f1": sum.Extra["f1"], "f2": sum.Extra["f2"], "f3": sum.Extra["f3"]})
+}
+
 func runF4Child(dir string) {
 	db, err := leveldb.New(filepath.Join(dir, "f4"), 16, 16, "", false)
 	if err != nil {
@@ -890,6 +926,8 @@ func main() {
 	out := flag.String("out", "summary.json", "summary output")
 	n := flag.Int("n", 10, "traces per target")
 	steps := flag.Int("steps", 200, "steps per trace")
+	flag.BoolVar(&skipF4, "skip-f4", false, "do not issue batch.DeleteRange(start > end) on leveldb targets (C23-F4: it panics)")
+	variant := flag.String("variant", "", "edges: which deviation constants produced the edges (ideal|emptydel|eager|replayrange); default: the target's own")
 	pending := flag.Bool("pending", false, "edges are contract edges replayed on deviating targets: classify known deviations as pending findings")
 	flag.Parse()
 	seed := int64(tl.EnvInt("VERIF_SEED", 1))
@@ -907,14 +945,20 @@ func main() {
 		return
 	}
 	var targets []*target
-	if *mode != "f4" {
+	if *mode != "f4" && *mode != "probe" {
 		for _, name := range strings.Split(*tg, ",") {
-			targets = append(targets, openTarget(name, *dir))
+			t := openTarget(name, *dir)
+			if *variant != "" {
+				t.variant = *variant // the constants of KV.tla the check binds these targets to
+			}
+			targets = append(targets, t)
 		}
 	}
 	switch *mode {
 	case "f4":
 		runF4(*dir, sum)
+	case "probe":
+		runProbe(*dir, sum)
 	case "edges":
 		runEdges(*in, targets, sum, *pending)
 	case "record":
